@@ -4122,15 +4122,17 @@ def c16_like_progress(env, ob):
                    "C05.aggregate[*])", native="c05_count_skips_nulls")
 def c05_count_argument(env, ob):
     """COUNT(*) counts rows, every other aggregate call - COUNT(col) included - is fed the VALUE of its argument for the
-    row (so that NULLs can be skipped by the accumulator).  Three laws per aggregate of the list: (1) the row-counting
+    row (so that NULLs can be skipped by the accumulator).  Four laws per aggregate of the list: (1) the row-counting
     entry `accumulate_star` is only reachable when the aggregate has no argument or `*`; (2) what `accumulate` receives is
-    what the evaluator returned for this aggregate's argument; (3) one of the two happens (or the row fails)."""
+    what the evaluator returned for this aggregate's argument; (3) one of the two happens (or the row fails); (4) an
+    aggregate marked DISTINCT is fed a value only if inserting it into the group's seen-set reported it as new."""
     star = env.enum_variants("sql/binder/bounds.rs", "BoundExpression")["Star"]
     argix = env.struct_fields("sql/planner/logical.rs", "AggregateExpr").index("arg")
+    distix = env.struct_fields("sql/planner/logical.rs", "AggregateExpr").index("distinct")
     ctx, f, args, res = explore(env, "runtime/ops/aggregate.rs", "accumulate_row", loop_bound=1)
-    qs, labels, n_star, n_acc = [], [], 0, 0
+    qs, labels, n_star, n_acc, n_dist = [], [], 0, 0, 0
     for path, rv in res:
-        last_next, last_eval, served = None, None, True
+        last_next, last_eval, served, last_seen_insert, eval_pos = None, None, True, None, -1
         for e in path.events:
             c = e["callee"]
             if re.search(r"Enumerate<.*AggregateExpr>> as Iterator>::next$", c):
@@ -4140,6 +4142,7 @@ def c05_count_argument(env, ob):
                 last_next, last_eval, served = mirsmt.describe(e["ret"]), None, False
             elif c.endswith("::evaluate_as_single_value"):
                 last_eval = (mirsmt.describe(e["ret"]), e["argdesc"][-1])
+                eval_pos = path.events.index(e)
                 served = True          # the row may fail here: Err travels up
             elif c.endswith("Accumulator::accumulate_star"):
                 n_star += 1
@@ -4152,14 +4155,28 @@ def c05_count_argument(env, ob):
                 od, idd = ctx.declare(base + "#d", "isize"), ctx.declare(base + "@Some.0#d", "isize")
                 qs.append(conj(e.get("pc_prefix", path.pc) + [f"(= {od.term} {bvconst(1, 64)})", f"(not (= {idd.term} {bvconst(star, 64)}))"]))
                 labels.append("row_counted_for_an_aggregate_that_has_an_argument")
+            elif re.search(r"HashSet::<types::DataType>::insert$", c):
+                last_seen_insert = e
             elif c.endswith("Accumulator::accumulate"):
                 n_acc += 1
                 served = True
+                # (4) DISTINCT: the value went through the group's seen-set for this aggregate and was new
+                if last_next is not None:
+                    dflag = ctx.declare(f"{last_next}@Some.0.1*.{distix}", "bool").term
+                    ins = last_seen_insert if (last_seen_insert is not None and last_eval is not None
+                                               and path.events.index(last_seen_insert) > eval_pos) else None
+                    pre = e.get("pc_prefix", path.pc)
+                    if ins is None or not isinstance(ins["ret"], Leaf):
+                        qs.append(conj(pre + [dflag]))
+                    else:
+                        qs.append(conj(pre + [dflag, f"(not {ins['ret'].term})"]))
+                        n_dist += 1
+                    labels.append("distinct_aggregate_fed_a_value_it_has_already_seen")
                 ok = last_eval is not None and last_next is not None and last_eval[0] in e["argdesc"][-1] and last_next in last_eval[1]
                 if not ok:
                     qs.append(conj(e.get("pc_prefix", path.pc)))
                     labels.append("accumulator_fed_something_else_than_the_value_of_its_argument")
-    kw = dict(paths=len(res), events={"accumulate_star": n_star, "accumulate": n_acc})
+    kw = dict(paths=len(res), events={"accumulate_star": n_star, "accumulate": n_acc, "accumulate_after_seen_set_insert": n_dist})
     if not n_star or not n_acc:
         return result(ob, "inconclusive", reason="vacuity: no accumulate / accumulate_star call on any path", **kw)
     chk = env.check(ctx, qs)
